@@ -1236,7 +1236,7 @@ fn spaces(tier: vpc::Tier) -> Vec<Space> {
     {
         let paths: Vec<PathK> = path_kinds(&hops, true).into_iter().filter(|p| matches!(p, PathK::Std { .. })).collect();
         let pays = pay_kinds(5);
-        let pays: Vec<PayK> = if thorough { vec![pays[0].clone(), pays[1].clone()] } else { vec![pays[0].clone(), pays[1].clone(), pays[7].clone()] };
+        let pays: Vec<PayK> = if thorough { [0usize, 1, 2, 7, 10, 11].iter().map(|i| pays[*i].clone()).collect() } else { vec![pays[0].clone(), pays[1].clone(), pays[7].clone()] };
         let hp: Vec<(HostK, HostK)> = if thorough {
             hosts.iter().flat_map(|a| hosts.iter().map(move |b| (a.clone(), b.clone()))).collect()
         } else {
